@@ -47,15 +47,18 @@ func WithHistogramDataPointStatistics(values []float64) func(HistogramDataPoint)
 			// A persisted timer that received nothing this interval: count 0, no min/max.
 			return
 		}
-		hdp.raw.Min = &values[0]
-		hdp.raw.Max = &values[len(values)-1]
+		// values is shared with the aggregator and is not sorted for timers
+		// carrying a histogram tag, so min/max must not alias its elements.
+		minValue, maxValue := values[0], values[0]
 		hdp.raw.Count = uint64(len(values))
 
 		for _, v := range values {
 			*hdp.raw.Sum += v
-			*hdp.raw.Min = math.Min(*hdp.raw.Min, v)
-			*hdp.raw.Max = math.Max(*hdp.raw.Max, v)
+			minValue = math.Min(minValue, v)
+			maxValue = math.Max(maxValue, v)
 		}
+		hdp.raw.Min = &minValue
+		hdp.raw.Max = &maxValue
 	}
 }
 
